@@ -724,6 +724,19 @@ class Rewriter:
                             self.rec('R5', '.iter().%s(' % toks[d].text, '.iter_%s(' % toks[d].text)
                             k = d + 1
                             continue
+            # R5: `.chars().all(` -> `.chars_all(` (shim/pm_chars.rs)
+            if is_id(t, 'chars') and prv_out() is not None and is_p(prv_out(), '.'):
+                a = nxt(k)
+                if a < n and is_p(toks[a], '('):
+                    bq = nxt(a)
+                    if bq < n and is_p(toks[bq], ')'):
+                        c = nxt(bq)
+                        d = nxt(c) if c < n else n
+                        if c < n and is_p(toks[c], '.') and d < n and is_id(toks[d], 'all'):
+                            out.append(T('ident', 'chars_all', t.start))
+                            self.rec('R5', '.chars().all(', '.chars_all(')
+                            k = d + 1
+                            continue
             # .add_attributes(ARGS) / .add_attribute(ARGS): argument dropped (R15)
             if is_id(t) and t.text in ('add_attributes', 'add_attribute') and prv_out() is not None and is_p(prv_out(), '.'):
                 b = nxt(k)
